@@ -43,7 +43,7 @@ META = {
     'components_real': ['TapeRecorder key builder, capture selection, alias resolver, record + play', 'FileBasedTapeCassette / InMemoryTapeCassette', 'jsonpickle'],
     'components_stub': ['service and environment', 'uuid / clock', 'process restart driven by the harness (real fresh interpreters)'],
     'budgets': {'quick': {'seconds': 35}, 'thorough': {'seconds': 600}},
-    'required_probes': {'quick': ['cross_process'], 'thorough': ['cross_process', 'set_of_strings_argument', 'capture_subset', 'resolver_alias', 'near_miss_pair']},
+    'required_probes': {'quick': ['cross_process'], 'thorough': ['cross_process', 'set_of_strings_argument', 'capture_subset', 'resolver_alias', 'near_miss_pair', 'long_argument', 'keys_built_concurrently']},
 }
 
 
@@ -62,6 +62,10 @@ def near_miss(tape, v):
         return [v + b'.', v.decode('latin-1') + '~', [v], (v,)][k]
     if v is None:
         return [False, 0, 'None', []][k]
+    if isinstance(v, list) and len(v) > 50:
+        return [v[:-1] + [v[-1] + 1], v[:-1], v + [v[-1]], v[1:]][k]
+    if isinstance(v, str) and len(v) > 500:
+        return [v[:-1] + 'y', v[:-1], v + 'x', 'y' + v[1:]][k]
     if isinstance(v, list):
         if v and k == 0:
             i = tape.draw(len(v))
@@ -123,6 +127,12 @@ def build(tape, run):
         seen = {}
         for fam in range(1 + tape.draw(3)):
             args = tuple(V.gen_faithful(tape, run, 2) for _ in range(i.npos))
+            if tape.draw(5) == 4:
+                # a long argument (serialized key part of several thousand characters)
+                n = tape.choice([110, 125, 200, 600])
+                big = tape.choice([list(range(1000, 1000 + n)), 'long-' + 'x' * (n * 17), dict(('key%03d' % q, q) for q in range(n)), set('s%04d' % q for q in range(n))])
+                args = (big,) + args[1:]
+                run.probe('long_argument')
             kwargs = dict((k, V.gen_faithful(tape, run, 2)) for k in i.kwnames if tape.draw(2))
             calls = [(args, kwargs)]
             for _ in range(tape.draw(4)):
@@ -255,8 +265,65 @@ def check_replay(run, spec2, rep, where):
     run.check(not rep.env.journal, 'own_value_on_replay', 'body-executed', 'bodies executed in replay')
 
 
+def threaded_keys(tape, clock):
+    """Two worker threads of one operation build lookup keys at the same time, for different inputs but passing the
+    very same argument object (a shared request / configuration object); pre-emption also inside the serializer."""
+    import jsonpickle
+    from simkit import REPO
+    from simkit.sim import Sim, SimDeadlock
+    run = Run(PROP)
+    run.probe('keys_built_concurrently')
+    V.FLAVOUR['objects'], V.FLAVOUR['sharing'] = True, False
+    shared = None
+    for _ in range(6):
+        shared = V.gen_faithful(tape, run, 2)
+        if V.is_mutable(shared):
+            break
+    spec = R.ServiceSpec()
+    for idx in range(2):
+        i = R.InputSpec(idx)
+        i.npos = 2
+        i.pool = [((shared, idx), {}), ((shared, 'other'), {'kw': shared} if False else {})]
+        for (a, k) in i.pool:
+            for dep in ('d0', 'd1'):
+                i.outcomes[(R.resolved_alias(i, dep), R.model_captured(i, a, k))] = ('value', 'token-%d-%s' % (idx, V.short(a[1])))
+        spec.inputs.append(i)
+    bodies = [[['in', 0, 0, 0, None], ['in', 0, 1, 0, None]], [['in', 1, 0, 0, None], ['in', 1, 1, 0, None]]]
+    spec.body = [['spawn', bodies, False]]
+    sim = Sim(tape, run, preempt_p=tape.choice([0.02, 0.05, 0.2]),
+              target_prefixes=[os.path.join(REPO, 'playback'), os.path.dirname(jsonpickle.__file__)], max_steps=400000)
+    store = C.Store('memory', clock=clock)
+    res = {}
+
+    def main():
+        res['rec'] = R.record_once(spec, run, store.open(), rseed=1, thread_factory=R.sim_thread_factory(sim))
+    try:
+        sim.run_main(main)
+    except SimDeadlock as ex:
+        run.violate('own_value_on_replay', 'deadlock', str(ex))
+        return run
+    rec = res['rec']
+    run.nontrivial = sim.switches > 2
+    run.say('two threads pass the same %s object to in0 / in1; %d context switches' % (type(shared).__name__, sim.switches))
+    run.ev('threaded_keys', V.srepr(shared), sim.switches)
+    if not rec.saved or not R.recording_in_faithful_domain(rec):
+        run.probe('recording_not_usable')
+        return run
+    rep = R.replay_once(spec, run, store.open(), rec.rec_id)
+    if rep.outcome.kind != 'return':
+        run.violate('own_value_on_replay', 'missed-key-after-concurrent-key-building', 'keys were built by two threads at the same time while recording; a sequential replay raised %r' % (rep.outcome.exc,))
+        return run
+    a = V.canon(rec.outcome.value) if rec.outcome.kind == 'return' else None
+    b = V.canon(rep.op_outcome.value) if rep.op_outcome and rep.op_outcome.kind == 'return' else None
+    run.check(a == b, 'own_value_on_replay', 'wrong-token-after-concurrent-key-building', 'replay handed other values than recorded')
+    return run
+
+
 def run_tape(tape):
-    mode = tape.draw(4)
+    mode = tape.draw(5)
+    if mode == 4:
+        with seams.deterministic(tape) as clock:
+            return threaded_keys(tape, clock)
     if mode == 1:
         return cross_process_single(tape)
     with seams.deterministic(tape) as clock:
@@ -397,5 +464,5 @@ def run_index(i, seed, tier, emit):
             emit(run, t)
         return
     for k in range(40):
-        t = Tape(seed + k, prefix=[0])
+        t = Tape(seed + k, prefix=[0 if k % 8 else 4])
         emit(safe_run_tape(mod, t), t)
